@@ -16,6 +16,7 @@ inductive Ev where
   | signal (n : Nat)
   | got (n : Nat)
   | late
+  | remaining (n : Nat)      -- nobody is inside the semaphore any more; `n` = its count
   deriving Repr
 
 def pre (s : St) (e : Ev) : Option String :=
@@ -23,12 +24,15 @@ def pre (s : St) (e : Ev) : Option String :=
   | .signal _ => none
   | .got n => if s.taken + n ≤ s.signalled then none else some "a waiter obtained tokens that had not been signalled (tokens created)"
   | .late => some "the semaphore was written to after wait() had returned and the waiter had destroyed it"
+  | .remaining n => if s.taken + n = s.signalled then none
+      else some "the tokens taken by successful waits plus the tokens left differ from the tokens signalled (a failed wait took tokens, or tokens were lost)"
 
 def eff (s : St) (e : Ev) : St :=
   match e with
   | .signal n => { s with signalled := s.signalled + n }
   | .got n => { s with taken := s.taken + n }
   | .late => s
+  | .remaining _ => s
 
 def step (s : St) (e : Ev) : Except String St :=
   match pre s e with
